@@ -3,3 +3,4 @@ import Thanos.Driver.Stores
 import Thanos.Props.C15
 import Thanos.Props.C08
 import Thanos.Props.C09
+import Thanos.Props.C07
